@@ -246,8 +246,13 @@ def build_od(model, node_id=None):
 EDS_NAME_CHARS = "ABCDEFGHIJKLMNOPQRSTUVWXYZabcdefghijklmnopqrstuvwxyz0123456789 _-%=()[]/+"
 
 
+TIME_TYPES = (0x0C, 0x0D)
+
+
 def eds_value(rng, dt):
     """Values that survive a text representation unambiguously."""
+    if dt in TIME_TYPES:
+        return rng.choice([0, 1, 0x10, 1234, rng.getrandbits(28), rng.getrandbits(47)])
     if dt in R.STRINGS:
         if rng.random() < 0.12:
             return ""                       # a zero-length value is a value, not "no value"
@@ -275,6 +280,8 @@ def eds_model(rng, node_id=None, n_objects=14, dcf=False, index_ranges=((0x1002,
         raise RuntimeError("no name")
 
     def var(index, sub, nm=None, dt=None):
+        if dt is None and rng.random() < 0.05:
+            dt = rng.choice(TIME_TYPES)       # TIME_OF_DAY / TIME_DIFFERENCE: basic CiA 301 types too (values written as numbers)
         dt = dt if dt is not None else rng.choice(R.ALL_TYPES)
         v = VarM(index, sub, nm or name(), dt, access=rng.choice(ACCESS), pdo=rng.random() < 0.4)
         if rng.random() < 0.6:
